@@ -368,7 +368,22 @@ lzma_lzma2_encoder_memusage(const void *options)
 	if (lzma_mem == UINT64_MAX)
 		return UINT64_MAX;
 
-	return sizeof(lzma_lzma2_coder) + lzma_mem;
+	uint64_t mem = sizeof(lzma_lzma2_coder) + lzma_mem;
+
+	// lzma2_encoder_init() makes the LZ encoder keep at least
+	// LZMA2_CHUNK_MAX bytes of history available so that uncompressed
+	// chunks can be created. With a dictionary smaller than that the
+	// LZ encoder's buffer becomes bigger than what
+	// lzma_lzma_encoder_memusage() calculated: before_size grows by
+	// at most the difference and lz_encoder_prepare() reserves
+	// half of that again.
+	const lzma_options_lzma *opt = options;
+	if (opt->dict_size < LZMA2_CHUNK_MAX) {
+		const uint64_t extra = LZMA2_CHUNK_MAX - opt->dict_size;
+		mem += extra + extra / 2 + 1;
+	}
+
+	return mem;
 }
 
 
